@@ -12,6 +12,17 @@ package main
 // structural pruning against the CRD xcrd.ForCompositeResourceClaim derives from
 // a generated XRD) and an optional pre-existing XR.
 //
+// The syncers (and the managed-fields upgrader) are long-lived objects of the
+// claim controller of one XRD: they serve EVERY claim of that XRD for the life
+// of the process. A scenario therefore is a main claim/XR pair plus any number
+// of peer pairs (other claims of the same XRD, in the same store, each with its
+// own history), whose operations are interleaved by `sched` and ALL run through
+// ONE ServerSideCompositeSyncer, ONE ClientSideCompositeSyncer and ONE
+// PatchingManagedFieldsUpgrader built once per scenario. The model is a pure
+// function of each pair alone (Drv/C07.lean runs every pair independently), so
+// anything a syncer carries over from one sync to the next - of the same or of
+// another claim - shows up as a correspondence diff and in the per-sync monitors.
+//
 // Observation (diffed against the Lean model Xp.C07): for every sync step the
 // ordered request bodies of every write the syncer issued, the error class it
 // returned and the stored claim and XR afterwards, all projected to
@@ -39,6 +50,7 @@ import (
 
 	"github.com/crossplane/crossplane/internal/controller/apiextensions/claim"
 	"github.com/crossplane/crossplane/internal/names"
+	"github.com/crossplane/crossplane/internal/xcrd"
 )
 
 const (
@@ -87,6 +99,19 @@ type c07Scn struct {
 	UserKeys []string `json:"userKeys"`   // top-level spec property names of the XRD author's schema
 	UserStat []string `json:"userStatus"` // top-level status property names of the XRD author's schema
 	Ops      []c07Op  `json:"ops"`
+	// Peers are other claims of the same XRD (distinct names) served by the same
+	// long-lived syncers. Sched interleaves the histories: every entry names the pair
+	// (0 = main, i = Peers[i-1]) whose next operation runs; what is left afterwards
+	// runs pair by pair. The model does not read Sched.
+	Peers []c07Peer `json:"peers"`
+	Sched []int     `json:"sched"`
+}
+
+// c07Peer is one more claim/XR pair with its own history.
+type c07Peer struct {
+	Claim c07Obj  `json:"claim"`
+	XR    *c07Obj `json:"xr"`
+	Ops   []c07Op `json:"ops"`
 }
 
 type c07Write struct {
@@ -101,8 +126,13 @@ type c07Step struct {
 	XR     *c07Obj    `json:"xr"`
 }
 
-type c07Obs struct {
+type c07PeerObs struct {
 	Steps []c07Step `json:"steps"`
+}
+
+type c07Obs struct {
+	Steps []c07Step    `json:"steps"`
+	Peers []c07PeerObs `json:"peers"`
 }
 
 // ---------------------------------------------------------------- projection
@@ -180,9 +210,11 @@ func c07ToU(o c07Obj, gvk schema.GroupVersionKind, ns string) *unstructured.Unst
 
 // ---------------------------------------------------------------- recording client
 
+// c07Rec is the ONE client the long-lived syncers of a scenario hold; it records
+// the writes of the sync in progress (reset before every sync).
 type c07Rec struct {
 	*Store
-	writes *[]c07Write
+	writes []c07Write
 }
 
 func c07Kind(obj client.Object) string {
@@ -210,17 +242,17 @@ func c07BodyJSON(b []byte) c07Obj {
 	return c07Proj(convertNumbers(m).(map[string]any))
 }
 
-func (r c07Rec) Create(ctx context.Context, obj client.Object, opts ...client.CreateOption) error {
-	*r.writes = append(*r.writes, c07Write{T: c07Kind(obj) + ".create", Body: c07Body(obj)})
+func (r *c07Rec) Create(ctx context.Context, obj client.Object, opts ...client.CreateOption) error {
+	r.writes = append(r.writes, c07Write{T: c07Kind(obj) + ".create", Body: c07Body(obj)})
 	return r.Store.Create(ctx, obj, opts...)
 }
 
-func (r c07Rec) Update(ctx context.Context, obj client.Object, opts ...client.UpdateOption) error {
-	*r.writes = append(*r.writes, c07Write{T: c07Kind(obj) + ".update", Body: c07Body(obj)})
+func (r *c07Rec) Update(ctx context.Context, obj client.Object, opts ...client.UpdateOption) error {
+	r.writes = append(r.writes, c07Write{T: c07Kind(obj) + ".update", Body: c07Body(obj)})
 	return r.Store.Update(ctx, obj, opts...)
 }
 
-func (r c07Rec) Patch(ctx context.Context, obj client.Object, patch client.Patch, opts ...client.PatchOption) error {
+func (r *c07Rec) Patch(ctx context.Context, obj client.Object, patch client.Patch, opts ...client.PatchOption) error {
 	data, err := patch.Data(obj)
 	if err != nil {
 		return err
@@ -233,30 +265,30 @@ func (r c07Rec) Patch(ctx context.Context, obj client.Object, patch client.Patch
 		t = "jsonpatch"
 	}
 	if t == "jsonpatch" {
-		*r.writes = append(*r.writes, c07Write{T: c07Kind(obj) + "." + t, Body: c07Obj{Name: obj.GetName(), Labels: map[string]string{}}})
+		r.writes = append(r.writes, c07Write{T: c07Kind(obj) + "." + t, Body: c07Obj{Name: obj.GetName(), Labels: map[string]string{}}})
 	} else {
-		*r.writes = append(*r.writes, c07Write{T: c07Kind(obj) + "." + t, Body: c07BodyJSON(data)})
+		r.writes = append(r.writes, c07Write{T: c07Kind(obj) + "." + t, Body: c07BodyJSON(data)})
 	}
 	return r.Store.Patch(ctx, obj, patch, opts...)
 }
 
-func (r c07Rec) Delete(ctx context.Context, obj client.Object, opts ...client.DeleteOption) error {
-	*r.writes = append(*r.writes, c07Write{T: c07Kind(obj) + ".delete", Body: c07Body(obj)})
+func (r *c07Rec) Delete(ctx context.Context, obj client.Object, opts ...client.DeleteOption) error {
+	r.writes = append(r.writes, c07Write{T: c07Kind(obj) + ".delete", Body: c07Body(obj)})
 	return r.Store.Delete(ctx, obj, opts...)
 }
 
 type c07SubRec struct {
 	client.SubResourceWriter
-	writes *[]c07Write
+	rec *c07Rec
 }
 
 func (w c07SubRec) Update(ctx context.Context, obj client.Object, opts ...client.SubResourceUpdateOption) error {
-	*w.writes = append(*w.writes, c07Write{T: c07Kind(obj) + ".status", Body: c07Body(obj)})
+	w.rec.writes = append(w.rec.writes, c07Write{T: c07Kind(obj) + ".status", Body: c07Body(obj)})
 	return w.SubResourceWriter.Update(ctx, obj, opts...)
 }
 
-func (r c07Rec) Status() client.SubResourceWriter {
-	return c07SubRec{SubResourceWriter: r.Store.Status(), writes: r.writes}
+func (r *c07Rec) Status() client.SubResourceWriter {
+	return c07SubRec{SubResourceWriter: r.Store.Status(), rec: r}
 }
 
 // ---------------------------------------------------------------- running a history
@@ -363,19 +395,113 @@ func c07XRNameOf(cm c07Obj) string {
 	return n
 }
 
-func c07Run(s c07Scn) (c07Obs, []Mon) {
+// c07Proc is what lives as long as the claim controller of one XRD: the API
+// client, the name generator and - built ONCE - both syncers and the upgrader.
+type c07Proc struct {
+	st  *Store
+	rec *c07Rec
+	gen string // the name the name generator produces next
+	ssa claim.CompositeSyncer
+	csa claim.CompositeSyncer
+	upg claim.ManagedFieldsUpgrader
+	// per syncer kind: has this syncer object already synced an XR whose update policy was Manual?
+	sawManual map[string]bool
+}
+
+func c07NewProc() *c07Proc {
 	st := NewStore(runtime.NewScheme())
 	st.Namespaced[c07ClaimGVK.GroupKind()] = true
+	p := &c07Proc{st: st, rec: &c07Rec{Store: st}, sawManual: map[string]bool{}}
+	ng := names.NameGeneratorFn(func(_ context.Context, cd resource.Object) error {
+		if cd.GetName() != "" || cd.GetGenerateName() == "" {
+			return nil
+		}
+		cd.SetName(p.gen)
+		return nil
+	})
+	p.ssa = claim.NewServerSideCompositeSyncer(p.rec, ng)
+	p.csa = claim.NewClientSideCompositeSyncer(p.rec, ng)
+	p.upg = claim.NewPatchingManagedFieldsUpgrader(p.rec)
+	return p
+}
+
+// c07Pair is the run state of one claim/XR pair of a scenario.
+type c07Pair struct {
+	name  string
+	ops   []c07Op
+	next  int
+	steps []c07Step
+}
+
+// c07Key tables of internal/xcrd as the syncers see them right now (they are rebuilt
+// on every call in the unchanged tree; PropagateSpecProps is a package-level slice).
+func c07KeyTables() string {
+	return mustJSON([]any{
+		xcrd.PropagateSpecProps,
+		c07SortedKeys(xcrd.CompositeResourceClaimSpecProps()),
+		c07SortedKeys(xcrd.CompositeResourceSpecProps()),
+		c07SortedKeys(xcrd.CompositeResourceStatusProps()),
+	})
+}
+
+// c07Info is what a run reports besides observation and monitors (for cls).
+type c07Info struct {
+	// some syncer object synced an XR under Manual and LATER an XR that is not under
+	// Manual for a claim that has a compositionRevisionRef (the carry-over trigger)
+	ManualThenOther bool
+}
+
+func c07Run(s c07Scn) (c07Obs, []Mon, c07Info) {
+	p := c07NewProc()
+	st := p.st
+	var info c07Info
+	pairs := []*c07Pair{{name: s.Claim.Name, ops: s.Ops}}
 	st.Seed(c07ToU(s.Claim, c07ClaimGVK, c07NS))
 	if s.XR != nil {
 		st.Seed(c07ToU(*s.XR, c07XRGVK, ""))
 	}
-	obs := c07Obs{Steps: []c07Step{}}
+	for _, pe := range s.Peers {
+		pairs = append(pairs, &c07Pair{name: pe.Claim.Name, ops: pe.Ops})
+		st.Seed(c07ToU(pe.Claim, c07ClaimGVK, c07NS))
+		if pe.XR != nil {
+			st.Seed(c07ToU(*pe.XR, c07XRGVK, ""))
+		}
+	}
 	var mons []Mon
+	for _, e := range s.Sched {
+		if e >= 0 && e < len(pairs) && pairs[e].next < len(pairs[e].ops) {
+			mons = append(mons, p.runOp(s, pairs[e], &info)...)
+		}
+	}
+	for _, pr := range pairs {
+		for pr.next < len(pr.ops) {
+			mons = append(mons, p.runOp(s, pr, &info)...)
+		}
+	}
+	obs := c07Obs{Steps: pairs[0].steps, Peers: []c07PeerObs{}}
+	if obs.Steps == nil {
+		obs.Steps = []c07Step{}
+	}
+	for _, pr := range pairs[1:] {
+		po := c07PeerObs{Steps: pr.steps}
+		if po.Steps == nil {
+			po.Steps = []c07Step{}
+		}
+		obs.Peers = append(obs.Peers, po)
+	}
+	return obs, mons, info
+}
+
+// runOp runs the next operation of one pair through the long-lived objects.
+func (p *c07Proc) runOp(s c07Scn, pr *c07Pair, info *c07Info) []Mon {
+	op := pr.ops[pr.next]
+	pr.next++
+	st := p.st
 	ctx := context.Background()
+	var mons []Mon
 
 	peekClaim := func() c07Obj {
-		return c07Proj(st.Peek(c07ClaimGVK.GroupKind(), c07NS, c07ClaimName).Object)
+		return c07Proj(st.Peek(c07ClaimGVK.GroupKind(), c07NS, pr.name).Object)
 	}
 	peekXR := func(name string) *c07Obj {
 		if name == "" {
@@ -389,91 +515,132 @@ func c07Run(s c07Scn) (c07Obs, []Mon) {
 		return &o
 	}
 
-	for _, op := range s.Ops {
-		switch op.Op {
-		case "editClaim":
-			st.Mutate(c07ClaimGVK.GroupKind(), c07NS, c07ClaimName, func(u *unstructured.Unstructured) { c07ApplyDelta(u, op) })
-		case "xrCtl":
-			if n := c07XRNameOf(peekClaim()); n != "" {
-				st.Mutate(c07XRGVK.GroupKind(), "", n, func(u *unstructured.Unstructured) { c07ApplyDelta(u, op) })
+	switch op.Op {
+	case "editClaim":
+		st.Mutate(c07ClaimGVK.GroupKind(), c07NS, pr.name, func(u *unstructured.Unstructured) { c07ApplyDelta(u, op) })
+	case "xrCtl":
+		if n := c07XRNameOf(peekClaim()); n != "" {
+			st.Mutate(c07XRGVK.GroupKind(), "", n, func(u *unstructured.Unstructured) { c07ApplyDelta(u, op) })
+		}
+	case "upgrade":
+		// CSA -> SSA migration point: the real managed-fields upgrader, as the
+		// reconciler calls it before Sync. It must not change any XR field.
+		n := c07XRNameOf(peekClaim())
+		before := peekXR(n)
+		if before == nil {
+			return nil
+		}
+		xr := ucomposite.New(ucomposite.WithGroupVersionKind(c07XRGVK))
+		if err := st.Get(ctx, types.NamespacedName{Name: n}, xr); err != nil {
+			return nil
+		}
+		var uerr error
+		if pn := Guard(func() { uerr = p.upg.Upgrade(ctx, xr, claim.FieldOwnerXR) }); pn != "" {
+			mons = append(mons, Mon{Sig: "C07:panic", Why: pn})
+		}
+		if uerr != nil {
+			mons = append(mons, Mon{Sig: "C07:upgrade-error", Why: uerr.Error()})
+		}
+		after := peekXR(n)
+		if mustJSON(before) != mustJSON(after) {
+			mons = append(mons, Mon{Sig: "C07:upgrade-changed-xr", Why: "managed fields upgrade changed XR data: " + mustJSON(before) + " -> " + mustJSON(after)})
+		}
+	case "sync":
+		pre := c07Pre{Claim: peekClaim(), XR: peekXR(c07XRNameOf(peekClaim()))}
+		others := p.snapshotOthers(pr.name, c07XRNameOf(pre.Claim))
+		tables := c07KeyTables()
+		// what the reconciler does before calling Sync
+		cm := uclaim.New(uclaim.WithGroupVersionKind(c07ClaimGVK))
+		if err := st.Get(ctx, types.NamespacedName{Namespace: c07NS, Name: pr.name}, cm); err != nil {
+			panic(err)
+		}
+		xr := ucomposite.New(ucomposite.WithGroupVersionKind(c07XRGVK))
+		if ref := cm.GetResourceReference(); ref != nil {
+			_ = st.Get(ctx, types.NamespacedName{Name: ref.Name}, xr)
+		}
+		// coverage bookkeeping (from this sync's inputs and the syncer's past only)
+		if c07Policy(pre.XR) == "Manual" {
+			p.sawManual[op.Syncer] = true
+		} else if p.sawManual[op.Syncer] && c07Has(c07Map(pre.Claim.Spec), "compositionRevisionRef") {
+			info.ManualThenOther = true
+		}
+		p.rec.writes = nil
+		p.gen = op.Gen
+		var err error
+		if pn := Guard(func() {
+			if op.Syncer == "ssa" {
+				err = p.ssa.Sync(ctx, cm, xr)
+			} else {
+				err = p.csa.Sync(ctx, cm, xr)
 			}
-		case "upgrade":
-			// CSA -> SSA migration point: the real managed-fields upgrader, as the
-			// reconciler calls it before Sync. It must not change any XR field.
-			n := c07XRNameOf(peekClaim())
-			before := peekXR(n)
-			if before == nil {
-				continue
-			}
-			xr := ucomposite.New(ucomposite.WithGroupVersionKind(c07XRGVK))
-			if err := st.Get(ctx, types.NamespacedName{Name: n}, xr); err != nil {
-				continue
-			}
-			var uerr error
-			if p := Guard(func() { uerr = claim.NewPatchingManagedFieldsUpgrader(st).Upgrade(ctx, xr, claim.FieldOwnerXR) }); p != "" {
-				mons = append(mons, Mon{Sig: "C07:panic", Why: p})
-			}
-			if uerr != nil {
-				mons = append(mons, Mon{Sig: "C07:upgrade-error", Why: uerr.Error()})
-			}
-			after := peekXR(n)
-			if mustJSON(before) != mustJSON(after) {
-				mons = append(mons, Mon{Sig: "C07:upgrade-changed-xr", Why: "managed fields upgrade changed XR data: " + mustJSON(before) + " -> " + mustJSON(after)})
-			}
-		case "sync":
-			pre := c07Pre{Claim: peekClaim(), XR: peekXR(c07XRNameOf(peekClaim()))}
-			// what the reconciler does before calling Sync
-			cm := uclaim.New(uclaim.WithGroupVersionKind(c07ClaimGVK))
-			if err := st.Get(ctx, types.NamespacedName{Namespace: c07NS, Name: c07ClaimName}, cm); err != nil {
-				panic(err)
-			}
-			xr := ucomposite.New(ucomposite.WithGroupVersionKind(c07XRGVK))
-			if ref := cm.GetResourceReference(); ref != nil {
-				_ = st.Get(ctx, types.NamespacedName{Name: ref.Name}, xr)
-			}
-			var writes []c07Write
-			rec := c07Rec{Store: st, writes: &writes}
-			ng := names.NameGeneratorFn(func(_ context.Context, cd resource.Object) error {
-				if cd.GetName() != "" || cd.GetGenerateName() == "" {
-					return nil
-				}
-				cd.SetName(op.Gen)
-				return nil
-			})
-			var err error
-			if p := Guard(func() {
-				if op.Syncer == "ssa" {
-					err = claim.NewServerSideCompositeSyncer(rec, ng).Sync(ctx, cm, xr)
-				} else {
-					err = claim.NewClientSideCompositeSyncer(rec, ng).Sync(ctx, cm, xr)
-				}
-			}); p != "" {
-				mons = append(mons, Mon{Sig: "C07:panic", Why: p})
-			}
-			if writes == nil {
-				writes = []c07Write{}
-			}
-			// The API server prunes null values of non-nullable fields on every write
-			// (apiextensions-apiserver defaulting.PruneNonNullableNullsWithoutDefaults);
-			// simstore keeps them. The only such null the syncers produce is a top-level
-			// spec field (compositionRevisionRef), and nothing reads it back within the
-			// same Sync, so pruning after the Sync is equivalent.
-			st.Mutate(c07ClaimGVK.GroupKind(), c07NS, c07ClaimName, c07DropNullSpec)
-			if n := c07XRNameOf(peekClaim()); n != "" {
-				st.Mutate(c07XRGVK.GroupKind(), "", n, c07DropNullSpec)
-			}
-			post := peekClaim()
-			step := c07Step{Err: c07ErrClass(err), Writes: writes, Claim: post, XR: peekXR(c07XRNameOf(post))}
-			obs.Steps = append(obs.Steps, step)
-			mons = append(mons, c07Monitor(s, op, pre, step)...)
+		}); pn != "" {
+			mons = append(mons, Mon{Sig: "C07:panic", Why: pn})
+		}
+		writes := p.rec.writes
+		p.rec.writes = nil
+		if writes == nil {
+			writes = []c07Write{}
+		}
+		// The API server prunes null values of non-nullable fields on every write
+		// (apiextensions-apiserver defaulting.PruneNonNullableNullsWithoutDefaults);
+		// simstore keeps them. The only such null the syncers produce is a top-level
+		// spec field (compositionRevisionRef), and nothing reads it back within the
+		// same Sync, so pruning after the Sync is equivalent.
+		st.Mutate(c07ClaimGVK.GroupKind(), c07NS, pr.name, c07DropNullSpec)
+		if n := c07XRNameOf(peekClaim()); n != "" {
+			st.Mutate(c07XRGVK.GroupKind(), "", n, c07DropNullSpec)
+		}
+		post := peekClaim()
+		step := c07Step{Err: c07ErrClass(err), Writes: writes, Claim: post, XR: peekXR(c07XRNameOf(post))}
+		pr.steps = append(pr.steps, step)
+		mons = append(mons, c07Monitor(s, op, pre, step)...)
+		// a sync touches its own claim and XR only, and never the key tables
+		if now := p.snapshotOthers(pr.name, c07XRNameOf(post)); now != others {
+			mons = append(mons, Mon{Sig: "C07:sync-changed-other-claim", Why: op.Syncer + ": syncing claim " + pr.name + " changed another claim or XR: " + others + " -> " + now})
+		}
+		if now := c07KeyTables(); now != tables {
+			mons = append(mons, Mon{Sig: "C07:key-table-changed-by-sync", Why: op.Syncer + ": the xcrd key tables changed across a sync: " + tables + " -> " + now})
 		}
 	}
-	return obs, mons
+	return mons
+}
+
+// snapshotOthers renders every stored claim and XR except the named ones.
+func (p *c07Proc) snapshotOthers(claimName, xrName string) string {
+	var out []c07Obj
+	for _, u := range p.st.OfKind(c07ClaimGVK.GroupKind()) {
+		if u.GetName() != claimName {
+			out = append(out, c07Proj(u.Object))
+		}
+	}
+	for _, u := range p.st.OfKind(c07XRGVK.GroupKind()) {
+		if u.GetName() != xrName {
+			out = append(out, c07Proj(u.Object))
+		}
+	}
+	sort.Slice(out, func(i, j int) bool { return out[i].Name < out[j].Name })
+	return mustJSON(out)
 }
 
 // ---------------------------------------------------------------- registration
 
-func c07Cls(s c07Scn, pruned bool) string {
+// c07Cls: the evidence histogram keeps the 40 largest classes, so only single-pair
+// random scenarios carry the full branch detail (syncer mode / start / policy).
+func c07Cls(s c07Scn, pruned bool, info c07Info) string {
+	if len(s.Peers) == 0 {
+		return c07ClsMain(s, pruned)
+	}
+	base := "multi/peers=1"
+	if len(s.Peers) > 1 {
+		base = "multi/peers=2+"
+	}
+	if info.ManualThenOther {
+		base += "/manual-then-other"
+	}
+	return base
+}
+
+func c07ClsMain(s c07Scn, pruned bool) string {
 	syn := map[string]bool{}
 	for _, o := range s.Ops {
 		if o.Op == "sync" {
@@ -552,7 +719,7 @@ func c07Enum(g *c07Gen, shard int, emit func(s c07Scn)) {
 					xm := (mask*37 + 11) % 512
 					xs := map[string]any{"region": "xu-old", "size": int64(3)}
 					xvals := map[string]any{
-						"claimRef":                    c07ClaimRef(),
+						"claimRef":                    c07ClaimRef(c07ClaimName),
 						"resourceRefs":                []any{map[string]any{"apiVersion": "nop.example.org/v1", "kind": "NopResource", "name": "xr-only-cd0"}},
 						"compositionRef":              map[string]any{"name": "xs-comp"},
 						"compositionRevisionRef":      map[string]any{"name": "xs-rev"},
@@ -590,23 +757,30 @@ func init() {
 	Register("C07", func(c *Ctx) {
 		for _, raw := range c.Corpus {
 			var s c07Scn
-			if err := jsonUnmarshalStrict(raw, &s); err == nil && len(s.Ops) > 0 {
+			if err := jsonUnmarshalStrict(raw, &s); err == nil && len(s.Ops) > 0 && c07NamesDistinct(s) {
 				s = c07Normalize(s)
-				obs, mons := c07Run(s)
+				obs, mons, _ := c07Run(s)
 				c.Emit(s, obs, mons, "corpus")
 			}
 		}
 		g := c07NewGen()
 		if shard := int(c.Seed % 1000); c.N > 0 && shard < 8 {
 			c07Enum(g, shard, func(s c07Scn) {
-				obs, mons := c07Run(s)
-				c.Emit(s, obs, mons, "enum/"+c07Cls(s, false))
+				obs, mons, _ := c07Run(s)
+				c.Emit(s, obs, mons, "enum/"+s.Ops[0].Syncer)
+			})
+			c07PolicyEnum(shard, func(s c07Scn, cls string) {
+				obs, mons, info := c07Run(s)
+				if info.ManualThenOther {
+					cls += "/manual-then-other"
+				}
+				c.Emit(s, obs, mons, cls)
 			})
 		}
 		for i := 0; i < c.N; i++ {
 			s, pruned := g.Scenario(c.Rng, c.Tier)
-			obs, mons := c07Run(s)
-			c.Emit(s, obs, mons, c07Cls(s, pruned))
+			obs, mons, info := c07Run(s)
+			c.Emit(s, obs, mons, c07Cls(s, pruned, info))
 		}
 	})
 	RegisterDump("C07", func() string {
@@ -639,7 +813,117 @@ func c07Normalize(s c07Scn) c07Scn {
 			out.XR.Labels = map[string]string{}
 		}
 	}
+	for i := range out.Peers {
+		pe := &out.Peers[i]
+		pe.Claim.Spec = c07CanonOrNil(pe.Claim.Spec)
+		pe.Claim.Status = c07CanonOrNil(pe.Claim.Status)
+		if pe.Claim.Labels == nil {
+			pe.Claim.Labels = map[string]string{}
+		}
+		if pe.XR != nil {
+			pe.XR.Spec = c07CanonOrNil(pe.XR.Spec)
+			pe.XR.Status = c07CanonOrNil(pe.XR.Status)
+			if pe.XR.Labels == nil {
+				pe.XR.Labels = map[string]string{}
+			}
+		}
+	}
 	return out
+}
+
+// c07NamesDistinct: the pairs of a scenario live in one store, so their claims and
+// pre-existing XRs must be different objects.
+func c07NamesDistinct(s c07Scn) bool {
+	cl := map[string]bool{s.Claim.Name: true}
+	xr := map[string]bool{}
+	if s.XR != nil {
+		xr[s.XR.Name] = true
+	}
+	for _, pe := range s.Peers {
+		if cl[pe.Claim.Name] || pe.Claim.Name == "" {
+			return false
+		}
+		cl[pe.Claim.Name] = true
+		if pe.XR != nil {
+			if xr[pe.XR.Name] {
+				return false
+			}
+			xr[pe.XR.Name] = true
+		}
+	}
+	return true
+}
+
+// c07PolicyEnum: the compositionRevisionRef clause for every pair of update policies
+// served by ONE syncer object. Pair A (main) is bound to an XR whose policy is polA,
+// pair B (peer) to an XR whose policy is polB (or B has no XR yet); both claims and both
+// XRs carry (or lack) DIFFERENT revision references; the history is
+// sync A, sync B, XR controller moves both XRs to a newer revision, sync A, sync B -
+// all through the same syncer (ssa, csa) or alternating between the two (mixed).
+// 3 syncer modes x 3 x 3 policies x 2 (claim B revision) x 3 (XR B: none / without / with revision) = 162.
+func c07PolicyEnum(shard int, emit func(s c07Scn, cls string)) {
+	pols := []string{"Manual", "Automatic", ""}
+	idx := 0
+	for _, mode := range []string{"ssa", "csa", "mixed"} {
+		for _, polA := range pols {
+			for _, polB := range pols {
+				for _, cmRevB := range []bool{true, false} {
+					for xrB := 0; xrB < 3; xrB++ {
+						idx++
+						if idx%8 != shard {
+							continue
+						}
+						mk := func(name, pol string, cmRev bool, xrMode int, tag string) (c07Obj, *c07Obj) {
+							xrName := name + "-pe000"
+							spec := map[string]any{"region": "cu-" + tag}
+							if pol != "" {
+								spec["compositionUpdatePolicy"] = pol
+							}
+							if cmRev {
+								spec["compositionRevisionRef"] = map[string]any{"name": "cu-rev-" + tag}
+							}
+							cm := c07Obj{Name: name, Labels: map[string]string{}, Spec: spec}
+							if xrMode == 0 {
+								return cm, nil
+							}
+							spec["resourceRef"] = c07XRRef(xrName)
+							xs := map[string]any{"claimRef": c07ClaimRef(name), "region": "cu-" + tag}
+							if pol != "" {
+								xs["compositionUpdatePolicy"] = pol
+							}
+							if xrMode == 2 {
+								xs["compositionRevisionRef"] = map[string]any{"name": "xs-rev-" + tag}
+							}
+							x := c07Obj{Name: xrName, Labels: map[string]string{"crossplane.io/composite": xrName,
+								"crossplane.io/claim-name": name, "crossplane.io/claim-namespace": c07NS}, Spec: xs}
+							return cm, &x
+						}
+						cmA, xrA := mk(c07ClaimName, polA, true, 2, "a")
+						cmB, xrBo := mk("peer1-claim", polB, cmRevB, xrB, "b")
+						// mixed: A is synced ssa then csa, B csa then ssa
+						syn := func(i int) string {
+							if mode == "mixed" {
+								return []string{"ssa", "csa"}[i%2]
+							}
+							return mode
+						}
+						bump := func(tag string) c07Op {
+							return c07Op{Op: "xrCtl", SetSpec: map[string]any{"compositionRevisionRef": map[string]any{"name": "xs-rev2-" + tag}}}
+						}
+						s := c07Scn{UserKeys: c07UserKeys, UserStat: c07UserStatus, Claim: cmA, XR: xrA,
+							Ops: []c07Op{{Op: "sync", Syncer: syn(0), Gen: c07ClaimName + "-pe000"}, bump("a"), {Op: "sync", Syncer: syn(1), Gen: "unused"}},
+							Peers: []c07Peer{{Claim: cmB, XR: xrBo,
+								Ops: []c07Op{{Op: "sync", Syncer: syn(1), Gen: "peer1-claim-pe000"}, bump("b"), {Op: "sync", Syncer: syn(0), Gen: "unused"}}}},
+							Sched: []int{0, 1, 0, 1, 0, 1}}
+						b, _ := json.Marshal(s)
+						var back c07Scn
+						_ = json.Unmarshal(b, &back)
+						emit(c07Normalize(back), "policy-enum")
+					}
+				}
+			}
+		}
+	}
 }
 
 func c07CanonOrNil(v any) any {
